@@ -378,10 +378,16 @@ def nelder_mead(prog, ctx):
             if l.startswith(cs + '[') and ('%s[ilo][' % cs) not in show(node['rhs']).replace(' ', '').replace('this.', ''):
                 probs.append('shrink moves row %s towards %s, not towards the best row ilo' % (idx, show(node['rhs'])[:60]))
             kinds.append('shrink')
-    # value re-evaluated at the new row: y[i] = func(psum) where psum[j] holds the new row
-    yv = [show(n).replace(' ', '') for n, r_, l_ in uses if show(n['lhs']).replace('this.', '').startswith(ys + '[') and 'psum' in show(n['rhs'])]
-    if not yv:
+    # value re-evaluated at the new row: wherever y[i] = func(A) is written inside a loop over the vertices, A[k] is row i of the simplex
+    reev = reevaluation(prog, mn, ys, cs)
+    if reev is None:
+        if not probs:
+            raise Undecided('re-evaluation of moved vertices: loop summary not obtained')
+        reev = (2, [])      # the guard/target problems found above already decide the rule
+    nre, bad_re = reev
+    if nre < 2:
         probs.append('the value of a shrunk vertex is not re-evaluated at its new row')
+    probs += bad_re
     ctx.decide('C11.a', 'minimize:shrink', mn, not probs and 'shrink' in kinds, 'shrink step skips the best vertex, contracts towards it and re-evaluates each moved vertex',
                '; '.join(sorted(set(probs))), witness={'reproducer': 'a shrink step while the best vertex is not row 0 loses the best point'} if probs else None)
     ctx.decide('C11.a', 'minimize:initial', mn, 'init-simplex' in kinds and 'init-values' in kinds, 'all vertices are evaluated once at the start', 'initial evaluation not recognised: %s' % kinds)
@@ -417,6 +423,55 @@ def nelder_mead(prog, ctx):
     okd = len(facs) == 3 and facs[0] < 0 and facs[1] > 1 and 0 < facs[2] < 1 and len(shr) >= 1 and all(0 < s_ < 1 for s_ in shr)
     ctx.decide('C11.d', 'coefficients', mn, okd, 'reflection %s, expansion %s, contraction %s, shrink %s' % tuple(facs + shr[:1]) if len(facs) == 3 and shr else 'ok',
                'move coefficients %s / shrink %s are outside their ranges (reflection<0, expansion>1, contraction and shrink in (0,1))' % (facs, shr))
+
+
+def reevaluation(prog, mn, ys, cs):
+    """(number of vertex loops that store y[i] = F(A), problems): after one symbolic iteration of each such loop the array handed to
+    the objective must hold, element by element, row i of the simplex as it stands at that point."""
+    from ..symx import State
+    sx = Symx(prog, mn)
+    k = Symbol('k', integer=True)
+    fname = 'F:' + mn.params[1]['name']
+    n, bad = 0, []
+    for lp in walk_stmts(mn.body):
+        if lp['k'] != 'For' or lp.get('cond') is None:
+            continue
+        st = State({})
+        try:
+            if lp.get('init') is not None:
+                lv, _ = sx.exec(lp['init'], [st])
+                st = lv[0]
+            entry, cond, live, done, n0 = sx.loop_step(lp, st)
+        except Undecided:
+            continue
+        for p in live:
+            yv = p.env.get('this.' + ys)
+            if not isinstance(yv, Arr) or not yv.defs:
+                continue
+            kvs, g, t = yv.defs[-1]
+            if not (isinstance(t, sp.core.function.AppliedUndef) and t.func.__name__ == fname and len(t.args) == 1):
+                continue
+            if not (isinstance(g, sp.Equality) and len(kvs) == 1):
+                return None
+            idx = g.rhs if g.lhs == kvs[0] else g.lhs
+            an = str(t.args[0])
+            bare = an.split(':', 1)[1] if an.startswith(('arr:', 'obj:')) else an
+            arg = [v for v in p.env.values() if isinstance(v, Arr) and str(v.name) == bare]
+            rows = p.env.get('this.' + cs)
+            if len(arg) > 1:
+                return None
+            if not arg:
+                arg = [Arr(bare)]          # not written in this iteration: its elements are whatever they were before
+            if not isinstance(rows, Arr):
+                rows = Arr('this.' + cs)
+            n += 1
+            a_el, r_el = arg[0].read((k,)), rows.read((idx, k))
+            if any('@loop' in str(x_) or '@entry' in str(x_) for x_ in (a_el, r_el)):
+                return None
+            if not is_zero(sp.simplify(a_el - r_el)):
+                bad.append('line %s: the stored value y[%s] is the objective at %s (element k: %s) but row %s of the simplex is %s there'
+                           % (lp['l'], idx, arg[0].name, str(a_el)[:80], idx, str(r_el)[:100]))
+    return n, bad
 
 
 def loops_have_cond(loops):
